@@ -370,6 +370,11 @@ def r8(tree, prog, rep):
 
 
 def run(tree, rep, tier):
+    from .. import round9 as _r9
+    _r9.forwarded_in_same_turn(tree, rep, "C02.R9", "src/wormhole/_rendezvous.py", (("RendezvousConnector", "_response_handle_message", "self._M.rx_message"),),
+                               "an exception raised while a peer message is processed (a reflected or malformed PAKE fails in SPAKE2.finish()) no longer "
+                               "travels back into ws_message's try/except: Boss.error never hears of it, the forged message is consumed as the peer's and "
+                               "the wormhole neither delivers an error nor closes")
     from .. import sharedstate
     sharedstate.check(tree, rep, "C02.R0")
     prog = Program(tree)
@@ -408,3 +413,5 @@ REWRITES = [
     Rewrite("purpose-inline", KEY, "    side_bytes = side.encode(\"ascii\")\n    phase_bytes = phase.encode(\"ascii\")\n    purpose = (b\"wormhole:phase:\" + sha256(side_bytes).digest() +\n               sha256(phase_bytes).digest())",
             "    purpose = (b\"wormhole:phase:\" + sha256(side.encode(\"ascii\")).digest() +\n               sha256(phase.encode(\"ascii\")).digest())", desc="locals inlined"),
 ]
+
+MUTANTS.append(Mutant("message-handler-deferred-a-turn", "src/wormhole/_rendezvous.py", "        self._M.rx_message(side, phase, body)\n", "        self._reactor.callLater(0, self._M.rx_message, side, phase, body)\n", "C02.R9", "seed C02-20"))
